@@ -1,12 +1,13 @@
 """C11 -- command substitution: output spliced literally, exactly once.
-L0: the regex crate's replacement-template language (harness op tpl = Regex::replace with the splice pattern)
-    against the model's expand_template on every template up to length 5/6 over { $ { } h 1 + x } plus the
-    names head / tail; should_do_dollar_command_extension on short strings.
+L0: should_do_dollar_command_extension on short strings (generated regex ASTs vs the regex crate).
 L1: do_command_substitution (both passes, in-process: real fork/exec of helpers/csub, which prints a prepared
     file verbatim and bumps a counter file) against the extracted model whose run_capture oracle is the table
     of those files; outputs over the printable specials of the quantifier; both spellings; positions; tags;
-    several substitutions per word / line; inner lines that do not plan (empty replacement).  Oracle: head ++ output-minus-trailing-newlines ++ tail, counter == 1.
-L2: argv of helpers/hp through `cicada -c`."""
+    several substitutions per word / line; inner lines that do not plan (empty replacement).
+    Oracle: head ++ output-minus-trailing-newlines ++ tail, counter == 1.
+L1x: the whole do_expansion in a cwd populated with files that match the outputs (*, *.txt, a*, sub/*):
+    the output must be inserted literally (pass order: glob before substitution).
+L2: argv of helpers/hp through `cicada -c`, in that populated cwd."""
 import itertools, os, re, shutil, subprocess, tempfile
 import common as C
 import expand_common as X
@@ -15,24 +16,23 @@ EXTRACT = ["C11"]
 BINS = ["c11"]
 NEEDS_CICADA = True
 ALLOWED_AXIOMS = []
-PINNED = ["C11_full", "C11_refuted", "C11_partial", "C11_unplannable", "C11_terminates", "C11_refuted_template",
+PINNED = ["C11_full", "C11_refuted", "C11_splices", "C11_partial", "C11_unplannable", "C11_terminates", "C11_output_not_globbed",
           "C11_refuted_whitespace"]
 TRUSTED = [
     "Coq 8.16.1 kernel (coqc; coqchk in thorough); vm_compute only in concrete witnesses / non-vacuity examples",
     "hand transcription of should_do_dollar_command_extension / do_command_substitution_for_dollar / _for_dot "
     "(coq/theories/Model/Expand.v), tied by differential execution",
     "the finder / splice / backquote patterns are hand-written first-match functions (find_dollar, head_of, dot_split; "
-    "literals pinned in Proofs/ExpandBasics.v); Regex::replace's template language is modelled from "
-    "regex-automata 0.4.9 util/interpolate.rs (expand_template) and checked against the crate by layer L0",
+    "literals pinned in Proofs/ExpandBasics.v), checked by L1 only",
     "running the inner line (CommandLine::from_line + run_pipeline with capture) is the World oracle run_capture: "
     "its stdout, or None when the line does not plan; that the real code runs it once per oracle call is checked "
     "by the counter files of layer L1",
     "extraction: ExtrOcamlBasic only; OCaml 4.13.1; ocaml/c11/drv.ml; harness/src/expand_ops.rs; helpers/csub.c; drive/c11.py",
 ]
 ASSUMES = [
-    "C11_partial: words head $( cmd ) tail with no dollar in head / tail, no newline or closing paren in cmd / tail, "
-    "cmd non-empty, not both '=' and a single quote in the word; output whose trimmed form has no dollar and equals "
-    "the output minus trailing newlines",
+    "C11_splices / C11_partial: words head $( cmd ) tail with no dollar in head, no newline or closing paren in cmd / "
+    "tail, cmd non-empty, not both '=' and a single quote in the word; any output that brings no dollar-open-paren into "
+    "the word (C11_partial: and whose trimmed form equals the output minus trailing newlines)",
     "stderr of the inner command and the shell's own state (the rest of the statement) are not modelled here",
 ]
 
@@ -46,6 +46,11 @@ def strip_nl(s):
 
 def rust_trim(s):
     return s.strip(" \t\n\r\x0b\x0c\x85\xa0")
+
+
+def gen(ctx=None):
+    """regenerates Gen/ShellRegexes.v from the regex literals of the current source (write-if-changed)"""
+    X.gen(ctx)
 
 
 def run(ctx, res):
@@ -66,13 +71,7 @@ def run(ctx, res):
                 "length %d; L1: %d outputs x spellings x positions x tags (+ several per word / line, unplannable "
                 "inner lines); non-trivial = distinct cases in which at least one substitution is performed" % (n0, n0, len(OUTS)))
     # ------------------------------------------------------------ L0
-    ta = ["$", "{", "}", "h", "1", "+", "x"]
-    tpls = [""]
-    for n in range(1, n0 + 1):
-        tpls += ["".join(t) for t in itertools.product(ta, repeat=n) if n < n0 or rng.random() < 0.3]
-    tpls += ["$head", "${head}", "$tail", "${tail}x", "$headx", "${head", "$0", "$1$2", "${0}", "$3", "${+1}", "$$head",
-             "${18446744073709551616}", "${18446744073709551615}", "$é", "${é}", "a${head}$", "${head}${tail}"]
-    l0 = [C.case("tpl", "HD", "TL", t) for t in tpls]
+    l0 = []
     sa = ["$", "(", ")", "=", "'", "x", "\n"]
     ss = [""]
     for n in range(1, n0 + 1):
@@ -81,12 +80,12 @@ def run(ctx, res):
     p0 = C.write_cases("c11_l0.txt", l0)
     m0 = C.run_model(ctx.model["C11"], p0)
     i0 = C.run_impl(ctx.bins["c11"], p0, len(l0), timeout=600)
-    res.count("L0_template_language_should_do", len(l0))
+    res.count("L0_should_do", len(l0))
     res.exhaustive = True
     for cs, a, b in zip(l0, m0, i0):
         if a != b:
             violate(kind="correspondence", layer="L0", input=cs, model=a, impl=b, failing_input=False,
-                    note="replacement-template expansion / should_do of the implementation differs from the model")
+                    note="should_do_dollar_command_extension of the implementation differs from the model")
     # ------------------------------------------------------------ L1
     csub = os.path.join(ctx.helpers, "csub")
     work = tempfile.mkdtemp(prefix="c11_")
@@ -229,9 +228,72 @@ def run(ctx, res):
                             note="a backquote substitution that does not plan disturbs its neighbours")
         res.sample({"layer": "L1", "input": repr(cases[1][0]).replace(work, "W"), "model": m1[1].replace(work, "W"),
                     "impl": i1[1].replace(work, "W")})
+        # ------------------------------------------------------------ L1x: the whole do_expansion in a populated cwd
+        # (pass order: filename expansion runs BEFORE command substitution, so an output holding * is inserted
+        # literally even when files in the cwd match it)
+        cwd = os.path.join(work, "cwd")
+        for n in ["a.txt", "b.txt", "ab", "sub/x", "sub/y.txt", ".hid.txt"]:
+            os.makedirs(os.path.dirname(os.path.join(cwd, n)), exist_ok=True)
+            open(os.path.join(cwd, n), "w").close()
+        gouts = ["*\n", "*.txt\n", "a*\n", "sub/*\n", "*.nomatch\n", "x*y *\n", "./*\n"]
+        gfiles = []
+        for i, o in enumerate(gouts):
+            f = os.path.join(work, "g%d" % i)
+            open(f, "w").write(o)
+            gfiles.append(f)
+
+        def gcmd(i):
+            cid[0] += 1
+            cnt = os.path.join(work, "c%d" % cid[0])
+            return "%s %s %s" % (csub, gfiles[i], cnt), cnt
+
+        xcases = []
+        for i, o in enumerate(gouts):
+            t = strip_nl(o)
+            for mk in (lambda c: [("", "echo"), ("", "$(%s)" % c), ("", "z")],
+                       lambda c: [("", "echo"), ("", "p`%s`" % c), ("", "z")],
+                       lambda c: [("", "echo"), ('"', "$(%s)" % c)],
+                       lambda c: [("", "echo"), ("", "*.txt"), ("", "$(%s)" % c)]):
+                c, cnt = gcmd(i)
+                toks = mk(c)
+                exp = []
+                for tg, x in toks:
+                    if x == "*.txt":
+                        exp += [("", "a.txt"), ("", "b.txt")]
+                    else:
+                        y = x.replace("$(%s)" % c, t).replace("`%s`" % c, t)
+                        exp.append((tg, y))
+                xcases.append((toks, c, cnt, o, exp))
+        xl = []
+        for toks, c, cnt, o, exp in xcases:
+            wf = "\x1e".join(["D\x1d" + cwd, "H\x1d" + work, "R" + c + "\x1d" + o, "G*.txt\x1da.txt\x1cb.txt"])
+            xl.append(C.case("dx", wf, "12", X.toks_field(toks)))
+        px = C.write_cases("c11_l1x.txt", xl)
+        mx = C.run_model(ctx.model["C11"], px)
+        ix = C.run_impl(ctx.bins["c11"], px, len(xl), shards=min(C.NCPU, 8), timeout=600)
+        res.count("L1x_do_expansion_populated_cwd", len(xl))
+        for (toks, c, cnt, o, exp), a, b in zip(xcases, mx, ix):
+            b = b.split("\t", 1)[1] if b.startswith("pid=") else b
+            a = a.split(" calls=")[0]
+            want = "[" + ",".join('("%s","%s")' % (C.enc(tg), C.enc(x)) for tg, x in exp) + "]"
+            n = os.path.getsize(cnt) if os.path.exists(cnt) else 0
+            res.nontrivial("l1x:%s" % (toks,))
+            if b != want or n != 1:
+                violate(kind="oracle", layer="L1x", cwd_entries=["a.txt", "b.txt", "ab", "sub/x", "sub/y.txt", ".hid.txt"],
+                        input=repr(toks).replace(work, "W"), output=o, expected=want, observed=b, model=a, runs=n,
+                        failing_input=True,
+                        note="the output of a command substitution must be inserted literally (not glob-expanded), after one run")
+            elif a != b:
+                violate(kind="correspondence", layer="L1x", input=repr(toks).replace(work, "W"), model=a, impl=b,
+                        failing_input=False, note="do_expansion of the implementation differs from the model")
         # ------------------------------------------------------------ L2
         hp = os.path.join(ctx.helpers, "hp")
         l2 = []
+        for i in range(len(gouts)):
+            c, cnt = gcmd(i)
+            l2.append(('%s @o $(%s) k' % (hp, c), [strip_nl(gouts[i]), "k"], cnt, gouts[i], "dollar"))
+            c, cnt = gcmd(i)
+            l2.append(('%s @o p`%s` k' % (hp, c), ["p" + strip_nl(gouts[i]), "k"], cnt, gouts[i], "bq"))
         for i in [0, 6, 8, 13, 14, 18, 1, 2]:
             o = OUTS[i]
             c, cnt = cmd(i)
@@ -242,7 +304,7 @@ def run(ctx, res):
         def one(job):
             env = {"PATH": "/usr/bin:/bin", "HOME": work, "XDG_CONFIG_HOME": work}
             try:
-                p = subprocess.run([ctx.cicada, "-c", job[0]], cwd=work, env=env, stdin=subprocess.DEVNULL,
+                p = subprocess.run([ctx.cicada, "-c", job[0]], cwd=cwd, env=env, stdin=subprocess.DEVNULL,
                                    stdout=subprocess.PIPE, stderr=subprocess.PIPE, timeout=15)
                 return p.stdout.decode("utf-8", "replace")
             except subprocess.TimeoutExpired:
